@@ -1,4 +1,6 @@
 import PcfgVerif.Properties.OmenCore
+import PcfgVerif.Properties.OmenCacheCore
+import PcfgVerif.Generated.OmenFacts
 /-!
 # C10 — the OMEN generator enumerates each level exactly
 
@@ -42,6 +44,35 @@ theorem C10_raise_iff (t : Tables) (target limit : Nat) :
       (findFirst t.m.maxLevel t.ipTbl = none ∨ findFirst t.m.maxLevel t.lnTbl = none) := by
   unfold Tables.enumLevel Tables.start
   cases h1 : findFirst t.m.maxLevel t.ipTbl <;> cases h2 : findFirst t.m.maxLevel t.lnTbl <;> simp
+
+/-- the result does not depend on what the shared lookup cache already holds: with any table whose
+entries are true results (`CacheOK` — in particular the table left by any earlier calls, for other
+levels, lengths or guess structures) the memoised `_fill_out_parse_tree` returns what the table-free
+function returns, and leaves such a table behind -/
+theorem C10_cache_independent (m : Model) (maxLen len : Nat) (c : Cache) (ip : Str) (target : Nat)
+    (h : CacheOK m c) :
+    (m.fillC maxLen len c ip target).1 = m.fill len ip target ∧
+    CacheOK m (m.fillC maxLen len c ip target).2 :=
+  fillC_eq_fill m maxLen len c ip target h
+
+/-- every history of calls from the empty table (a fresh `Optimizer`) agrees call by call with the
+table-free function -/
+theorem C10_cache_history (m : Model) (maxLen : Nat) (calls : List (Nat × Str × Nat)) :
+    (calls.foldl (fun (acc : List (Option (List Item)) × Cache) k =>
+        let r := m.fillC maxLen k.1 acc.2 k.2.1 k.2.2
+        (acc.1 ++ [r.1], r.2)) ([], [])).1 =
+    calls.map fun k => m.fill k.1 k.2.1 k.2.2 :=
+  fillC_run m maxLen calls
+
+/-- the table is read and written nowhere else: every call on `self.optimizer` in the guesser sits in
+`_fill_out_parse_tree` and uses the key (ip, length, target level) — regenerated from the source -/
+theorem C10_cache_sites :
+    Pcfg.Generated.OmenFacts.optimizerCalls.all (fun c =>
+      c.1 == "guess_structure.py" && c.2.1 == "_fill_out_parse_tree" &&
+      ((c.2.2.1 == "lookup" && c.2.2.2 == ["ip", "length", "target_level"]) ||
+       (c.2.2.1 == "update" && c.2.2.2 == ["ip", "length", "optimize_level_target"]))) = true ∧
+    Pcfg.Generated.OmenFacts.optimizerCalls.any (fun c => c.2.2.1 == "lookup") = true := by
+  decide
 
 /-- non-vacuity: a well-formed bigram table whose level 1 is `ab, aaa` -/
 example : exT.WF 1 ∧ exT.enumLevel 1 10 = some [['a', 'b'], ['a', 'a', 'a']] := ⟨exT_wf, by decide⟩
